@@ -29,6 +29,9 @@ pub struct BStep {
     /// offset (units of height) of an extra measurement used to probe `distance`
     pub px: f32,
     pub py: f32,
+    /// 0 = keep the angle representation, 1 = this measurement has no angle, 2 = it has one
+    #[serde(default)]
+    pub angle_mode: u8,
 }
 
 #[derive(Clone, Debug, Serialize, Deserialize)]
@@ -63,7 +66,12 @@ pub fn measurements(c: &BoxSeq) -> Vec<UB> {
         let nx = reflect(cur.xc as f64, s.dx as f64 * h);
         let ny = reflect(cur.yc as f64, s.dy as f64 * h);
         let nh = (h * s.dh as f64).clamp(hmin, hmax);
-        let na = cur.angle.map(|a| (a as f64 + s.da as f64) as f32);
+        // mixed histories: rotated measurements followed by measurements without an angle (and back)
+        let na = match s.angle_mode {
+            1 => None,
+            2 => Some((cur.angle.unwrap_or(0.3) as f64 + s.da as f64) as f32),
+            _ => cur.angle.map(|a| (a as f64 + s.da as f64) as f32),
+        };
         let nasp = (cur.aspect as f64 * s.dasp as f64).clamp(0.1, 10.0);
         cur = UB::new(nx as f32, ny as f32, na, nasp as f32, nh as f32);
         out.push(cur);
@@ -100,7 +108,8 @@ const TOL_POS_H: f64 = 5e-2;
 const TOL_POS_ULP: f64 = 16.0;
 const TOL_HEIGHT_H: f64 = 1e-3;
 const TOL_ASPECT: f64 = 1e-4;
-const TOL_ANGLE: f64 = 5e-4;
+// (1.1e-3 measured when measurements switch between 'no angle' and a rotation of ~1 rad)
+const TOL_ANGLE: f64 = 5e-3;
 const TOL_COV_REL: f64 = 7e-2;
 const TOL_COV_ASYM: f64 = 5e-2;
 
@@ -202,7 +211,7 @@ pub fn check_box_seq(c: &BoxSeq) -> CaseResult {
                     // loose tie to the reference filter's distance (state drift measured in units of
                     // the position std can reach ~2 for the smallest weights); the sharp statement is
                     // the one against the filter's own state above
-                    ensure!((d_impl - d_ref).abs() <= 1.5 * (d_ref + 0.5) + 2.0 * d_ref.sqrt() * quant + quant * quant, format!("kalman-distance-ref:{}", class), "step {}: distance {} but the reference filter gives {}", k, d_impl, d_ref);
+                    ensure!((d_impl - d_ref).abs() <= 3.0 * (d_ref + 0.5) + 2.0 * d_ref.sqrt() * quant + quant * quant, format!("kalman-distance-ref:{}", class), "step {}: distance {} but the reference filter gives {}", k, d_impl, d_ref);
                 }
             }
         }
@@ -247,13 +256,13 @@ fn box_seq(extreme: bool) -> impl Strategy<Value = BoxSeq> {
         (0.0005f32.ln()..0.05f32.ln()).prop_map(|x: f32| x.exp()),
         (1.0f32..1e4, 1.0f32..1e4, prop_oneof![Just(None), (-3.2f32..3.2).prop_map(Some)], 0.2f32..4.0, (0.5f32.ln()..300f32.ln()).prop_map(|x: f32| x.exp())),
         (0u8..7, -0.6f32..0.6, -0.6f32..0.6, -0.02f32..0.02, 0.0f32..0.3),
-        proptest::collection::vec((prop_oneof![8 => Just(1u8), 1 => Just(2u8), 1 => Just(3u8)], proptest::bool::weighted(0.92), -1.0f32..1.0, -1.0f32..1.0, -1.0f32..1.0, -1.0f32..1.0, (-4.0f32..4.0, -4.0f32..4.0)), 1..300),
+        proptest::collection::vec((prop_oneof![8 => Just(1u8), 1 => Just(2u8), 1 => Just(3u8)], proptest::bool::weighted(0.92), -1.0f32..1.0, -1.0f32..1.0, -1.0f32..1.0, -1.0f32..1.0, (-4.0f32..4.0, -4.0f32..4.0, prop_oneof![40 => Just(0u8), 1 => Just(1u8), 1 => Just(2u8)])), 1..300),
     )
         .prop_map(move |(wp, wv, (x, y, ang, asp, h), (mode, vx, vy, acc, jit), raw)| {
             let init = UB::new(x, y, ang, asp, h);
             let mut steps = vec![];
             let (mut cvx, mut cvy) = match mode { 0 | 3 => (0.0, 0.0), _ => (vx, vy) };
-            for (predicts, update, r1, r2, r3, r4, (px, py)) in raw {
+            for (predicts, update, r1, r2, r3, r4, (px, py, angle_mode)) in raw {
                 if mode == 2 {
                     cvx = (cvx + acc).clamp(-1.0, 1.0);
                     cvy = (cvy + acc * 0.5).clamp(-1.0, 1.0);
@@ -266,7 +275,7 @@ fn box_seq(extreme: bool) -> impl Strategy<Value = BoxSeq> {
                     _ => 1.0 + 0.03 * r3,
                 };
                 let da = if mode == 6 { 0.05 + 0.02 * r4 } else if mode == 0 { 0.0 } else { 0.01 * r4 };
-                steps.push(BStep { predicts, update, dx: cvx + j * r1, dy: cvy + j * r2, dh, da, dasp: if mode == 0 { 1.0 } else { 1.0 + 0.01 * r4 }, px, py });
+                steps.push(BStep { predicts, update, dx: cvx + j * r1, dy: cvy + j * r2, dh, da, dasp: if mode == 0 { 1.0 } else { 1.0 + 0.01 * r4 }, px, py, angle_mode: if mode == 0 { 0 } else { angle_mode } });
             }
             BoxSeq { wp, wv, init, extreme, steps }
         })
@@ -325,6 +334,7 @@ pub fn check_point_seq(c: &PointSeq) -> CaseResult {
     let mut ss: Vec<_> = starts.iter().map(|p| f.initiate(p)).collect();
     let mut rs: Vec<KState> = starts.iter().map(|p| rf.initiate(&[p.x as f64, p.y as f64])).collect();
     let mut cur: Vec<(f32, f32)> = c.points.iter().map(|p| p.0).collect();
+    // (a point that never moved keeps a state equal to its measurement bit for bit)
     let same = |a: &similari::utils::kalman::KalmanState<4>, b: &similari::utils::kalman::KalmanState<4>| {
         let (ma, ca) = a.verif_raw();
         let (mb, cb) = b.verif_raw();
@@ -407,7 +417,8 @@ fn point_seq() -> impl Strategy<Value = PointSeq> {
             wp,
             wv,
             // steps: constant velocity (units of the position std) plus jitter
-            points: pts.into_iter().map(|(s, v, js)| (s, js.into_iter().map(|j| (wp * (2.0 * v.0 + 0.5 * j.0), wp * (2.0 * v.1 + 0.5 * j.1))).collect())).collect(),
+            // (a fifth of the steps are exactly stationary: measurement = previous measurement)
+            points: pts.into_iter().map(|(s, v, js)| (s, js.into_iter().enumerate().map(|(k, j)| if (k as f32 * 0.37 + j.0.abs() * 10.0) % 1.0 < 0.2 { (0.0, 0.0) } else { (wp * (2.0 * v.0 + 0.5 * j.0), wp * (2.0 * v.1 + 0.5 * j.1)) }).collect())).collect(),
             predicts,
             updates,
         })
